@@ -1,15 +1,18 @@
 ------------------------------- MODULE Dispose -------------------------------
 (* C16 - implementation-shaped model of the shutdown paths of tunnox-core.                       *)
-(* Three scenes (constant Scene), each a set of goroutines racing over the same latch idiom:     *)
+(* One behaviour = one configuration cf (chosen in Init from the suite, never changes) of one of  *)
+(* three scenes, each a set of goroutines racing over the same latch idiom:                       *)
 (*                                                                                                *)
 (* "latch"   internal/core/dispose/dispose.go  Dispose.Close / runCleanHandlers / AddCleanHandler *)
 (*           (shared by ManagerBase, StreamProcessor, memory Storage, SessionManager,             *)
 (*           BaseMappingHandler): closers enter (hook dispose.close.enter), take currentLock,     *)
 (*           the first one sets closed, cancels the context, copies the handler list under        *)
 (*           linkLock and runs the handlers in order while HOLDING currentLock; later closers     *)
-(*           wait for the lock and return.  An adder registers a handler at any time, an          *)
-(*           operation guarded by IsClosed() runs at any time, a worker goroutine started by the  *)
-(*           component ends when the context is cancelled.                                        *)
+(*           wait for the lock and return.  An adder registers a handler at any time (added after *)
+(*           the latch closed it never runs: ghost set late), an operation guarded by IsClosed()  *)
+(*           runs at any time, a read of the component is in flight while it closes (IoCall /     *)
+(*           IoNext / IoEnd; deviation dev_tornio), a worker goroutine started by the component   *)
+(*           ends when the context is cancelled.                                                  *)
 (*                                                                                                *)
 (* "tunnel"  internal/client/tunnel/tunnel.go  Tunnel.Close:                                      *)
 (*               cur := state.Load(); if cur is Closing/Closed return            TLoad            *)
@@ -23,14 +26,16 @@
 (*           ("peer": manager.OnTunnelClosed -> NotifyPeerClosed), context cancellation ("ctx":   *)
 (*           manager.Close -> CloseAll -> Close(ContextCanceled)).  A closer whose CAS fails is   *)
 (*           NOT turned away by the code as written: it stores Closing and runs the body again    *)
-(*           (ghost flag fell).  FixCas = TRUE is the repaired design (claim by CAS from          *)
-(*           Connected or Connecting, return when both fail).                                     *)
+(*           (ghost flag fell).  Repaired design (FixCas): the state is claimed by a CAS from     *)
+(*           Connected or Connecting; a closer that loses both returns.                           *)
 (*                                                                                                *)
 (* "bridge"  internal/protocol/session/tunnel  Bridge.Start / Close / cleanup /                   *)
 (*           periodicTrafficReport / reportTrafficStats:                                          *)
-(*           Start spawns two copiers; each, when its Read ends, adds its unflushed byte count    *)
-(*           to the shared counter (CFlush) and calls closeOnce.Do(b.Close) (COnce); Close closes *)
-(*           the underlying connections first (XCall) and then goes through the dispose latch     *)
+(*           Start spawns two copiers (CBorn: as written they read b.targetForwarder only when    *)
+(*           they start running - nil after a Close: deviation dev_nilfwd; repaired (FixSnap):    *)
+(*           one snapshot); each, when its Read ends, adds its unflushed byte count to the shared *)
+(*           counter (CFlush) and calls closeOnce.Do(b.Close) (COnce); Close closes the           *)
+(*           underlying connections first (XCall) and then goes through the dispose latch         *)
 (*           (XLatch); the latch winner cancels the context and runs the clean-up handler, whose  *)
 (*           reportTrafficStats is the reporter "of the closer"; the periodic goroutine reacts to *)
 (*           the cancelled context by running reportTrafficStats in a goroutine of its own        *)
@@ -38,10 +43,13 @@
 (*           -> RGet (CloudControl.GetPortMapping) -> RUpd (UpdatePortMappingStats with mapping   *)
 (*           + delta) -> RSto (store last-reported).  Nothing excludes two reporters (ghost       *)
 (*           dev_overlap), and nothing orders a copier's final flush before the last report       *)
-(*           (ghost dev_lateflush).  FixReport = TRUE: reporters are serialised by a mutex.       *)
-(*           FixFlush = TRUE: Start reports once more after both copiers have ended.              *)
+(*           (ghost dev_lateflush).  Repaired: reporters serialised by a mutex (FixReport), Start *)
+(*           reports once more after both copiers have ended (FixFlush).                          *)
 (*                                                                                                *)
-(* Goroutine births/deaths are tracked in liveG.  hist is the behaviour handed to the driver:     *)
+(* Properties: AtMostOnce, ExactlyOnce, NoOverReport, TrafficExact, ClosedError, NoPanic,         *)
+(* LeakFree (bottom of the module); the cfg checks Inv* = property or, in a configuration of the  *)
+(* code as written, a listed deviation.  Goroutine births/deaths are tracked in liveG.            *)
+(* hist is the behaviour handed to the driver:                                                    *)
 (* [p, a, s, w, r] = process, action, s: the step has no gate of its own in the real code (it     *)
 (* happens by itself after the previous step of p), w: after the step p is blocked on a lock,     *)
 (* r: p's call returns (or goroutine p ends) in this step.                                        *)
@@ -54,7 +62,7 @@ CONSTANTS Suite,        \* which set of configurations this run explores (see Cf
 \* state when the closers arrive ("Connected" = started, "Connecting" = Close before Start), chunks each
 \* copier may move, and the design: "asis" = the code as written, "report" = reportTrafficStats
 \* serialised by a mutex only, "fixed" = all repairs (Tunnel.Close returns when its CAS fails, reporters
-\* serialised, Start reports once more after both copiers ended).
+\* serialised, Start reports once more after both copiers ended and gives them one forwarder snapshot).
 C(scene, closers, paths, start, ca, cb_, design) ==
   [scene |-> scene, closers |-> closers, paths |-> paths, start |-> start, chunks |-> [cpA |-> ca, cpB |-> cb_], design |-> design]
 X2 == {"x1", "x2"}
@@ -483,7 +491,8 @@ NoOverReport == reported <= moved
 TrafficExact == (Scene = "bridge" /\ AllRet /\ closed) => reported = moved
 \* (4) an operation invoked after a Close returned gets the closed error
 ClosedError == (Scene = "latch" /\ opafter /\ opres # "none") => opres = "closed"
-\* (5) nothing is left running: when every process has returned, every remaining goroutine is on its way out
+\* (5) no goroutine of the component panics (NoPanic, below)
+\* (6) nothing is left running: when every process has returned, every remaining goroutine is on its way out
 CanExit(g) == \/ g \in {"w", "m1", "m2"} /\ ctxDone
               \/ g = "per" /\ (pc["fin"] = "gone" \/ (pc["fin"] = "idle" /\ ctxDone))
 LeakFree == (AllRet /\ Initiated) => \A g \in liveG : CanExit(g)
